@@ -3,7 +3,7 @@
 (* Code -> spec binding for Lifecycle: validates batches of event traces   *)
 (* recorded from the real library (hooks in parser.py, guard               *)
 (* SIMPLE_DDL_PARSER_VERIF=1) against the CONTRACT configuration of        *)
-(* Lifecycle (Binding = "perobject", ResetPerRun = TRUE).                  *)
+(* Lifecycle (Binding = "perobject", ResetSet = Accs, Registry = perrun).  *)
 (*                                                                         *)
 (* The file named by the environment variable TRACE_FILE is a JSON array   *)
 (* of traces  [solo |-> [Obj -> Seq(Seq(Int))], ev |-> Seq(event)]  where  *)
@@ -37,7 +37,10 @@ TBuildParser == /\ IsEvent("BuildParser") /\ BuildParser(Tr[l].o)
 
 TStartRun == /\ IsEvent("StartRun")
              /\ \E a \in Args : StartRun(Tr[l].o, a)
-             /\ Strict => Tr[l].ncomments = listLen'[Tr[l].o][gen'[Tr[l].o]]   \* internal
+             /\ Strict => /\ Tr[l].ncomments = listLen'[Tr[l].o][gen'[Tr[l].o]]   \* internal
+                          /\ Tr[l].c_comments = ("comments" \in carried'[Tr[l].o])
+                          /\ Tr[l].c_block = ("block_comments" \in carried'[Tr[l].o])
+                          /\ Tr[l].c_stmt = ("statement" \in carried'[Tr[l].o])
 
 TParseStmt == /\ IsEvent("ParseStmt")
               /\ LET o == Tr[l].o IN
